@@ -163,6 +163,54 @@ def _alpha_grad(torch, c, alpha):
     return None if g is None else g.detach().double()
 
 
+def _onehot_oracle(torch, o, p, gets, xs, alpha_named, hard_ok):
+    """one-hot sampled coefficients (hard_softmax=True in training mode; eval() mode), with the seeded coefficients and
+    with the initial ones (per-channel search: some precision is then chosen by no channel): cost finite and >= 0,
+    every gradient finite, none to the weights"""
+    seeded = {n: q.detach().clone() for n, q in alpha_named}
+    modes = (['hard'] if hard_ok else []) + ['eval']
+    for coeffs in ('seeded', 'extreme'):
+        with torch.no_grad():
+            for n, q in alpha_named:
+                if coeffs == 'extreme':           # every channel / layer picks the LAST precision: the others get theta = 0
+                    v = torch.zeros_like(q)
+                    v[-1] = 4.0
+                    q.copy_(v)
+                else:
+                    q.copy_(seeded[n])
+        for mode in modes:
+            if mode == 'hard':
+                p.update_softmax_options(hard=True)
+                p.train()
+            else:
+                if hard_ok:
+                    p.update_softmax_options(hard=False)
+                p.eval()
+            p(*xs)
+            for which, get in gets.items():
+                tag = '%s:%s:%s' % (mode, coeffs, which)
+                c = get()
+                v = float(c)
+                if not _finite_nonneg(v):
+                    o['fails'].append(('cost-not-finite-or-negative:one-hot:' + tag, v))
+                gn = _grads(torch, c, alpha_named)
+                for n, gl in gn.items():
+                    if gl is not None and not all(math.isfinite(x) for x in gl):
+                        o['fails'].append(('gradient-not-finite:one-hot:' + tag, {'param': n, 'grad': gl[:8]}))
+                        break
+                gw = _grads(torch, c, list(p.named_net_parameters()))
+                bad = [n for n, gl in gw.items() if gl is not None and any(x != 0 for x in gl)]
+                if bad:
+                    o['fails'].append(('gradient-reaches-network-weight:one-hot:' + tag, bad[:3]))
+    with torch.no_grad():
+        for n, q in alpha_named:
+            q.copy_(seeded[n])
+    if hard_ok:
+        p.update_softmax_options(hard=False)
+    p.train()
+    p(*xs)
+
+
 # ----------------------------------------------------------------------------- SuperNet
 def _sn_specs():
     from plinio.cost import params, ops, params_no_bias, ops_no_bias, gap8_latency
@@ -355,6 +403,8 @@ def mps_case(torch, seed, mname, per_channel):
             _indep(torch, o, p, o['specs'][which], lambda: p.get_cost(which), xs, which, seed)
         stage = 'observers'
         _observer_oracle(torch, o, p, {w: (lambda w=w: p.get_cost(w)) for w in names}, xs, al(p))
+        stage = 'onehot'
+        _onehot_oracle(torch, o, p, {w: (lambda w=w: p.get_cost(w)) for w in names}, xs, al(p), True)
     except Exception as ex:
         o['fails'].append(('exception:MPS:' + stage.split(':')[0], '%s: %s' % (type(ex).__name__, str(ex)[:300])))
         o['trace'] = traceback.format_exc()[-1500:]
@@ -407,6 +457,8 @@ def odimo_case(torch, seed, mname, as_dict):
         _indep(torch, o, p, S, get, xs, 'diana_latency', seed)
         stage = 'observers'
         _observer_oracle(torch, o, p, {'diana_latency': get}, xs, al(p))
+        stage = 'onehot'
+        _onehot_oracle(torch, o, p, {'diana_latency': get}, xs, al(p), False)     # ODiMO does not support hard sampling: eval() mode only
     except Exception as ex:
         o['fails'].append(('exception:ODiMO_MPS-default-cost:' + stage, '%s: %s' % (type(ex).__name__, str(ex)[:300])))
         o['trace'] = traceback.format_exc()[-1500:]
